@@ -280,3 +280,54 @@ Proof.
       * destruct (stop_before cancel None deadline) as [[t' o']|] eqn:S; [|discriminate].
         intros [= -> ->]. exact (NS _ _ _ S eq_refl).
 Qed.
+
+(** * the response returned is the FIRST acceptable datagram in arrival order *)
+Lemma all_rejected_app a b : all_rejected a -> all_rejected b -> all_rejected (a ++ b).
+Proof. unfold all_rejected. rewrite forallb_app. intros -> ->. reflexivity. Qed.
+
+Lemma stop_before_not_got cancel close x t o : stop_before cancel close x = Some (t, o) -> o <> Got.
+Proof.
+  unfold stop_before. destruct cancel as [c|], close as [k|];
+    repeat match goal with |- context [if ?b then _ else _] => destruct b end;
+    intros [= <- <-]; discriminate.
+Qed.
+
+Lemma try_consumes : forall ds deadline tau cancel close,
+  match try false deadline tau cancel close ds with
+  | TryGot t => exists pre rest, ds = pre ++ (t, true) :: rest /\ all_rejected pre
+  | TryDeadline _ rest => exists pre, ds = pre ++ rest /\ all_rejected pre
+  | TryStop _ o => o <> Got
+  end.
+Proof.
+  induction ds as [|[u a] ds IH]; intros deadline tau cancel close; cbn [try].
+  - destruct (stop_before cancel close deadline) as [[t' o]|] eqn:S;
+      [eapply stop_before_not_got; eauto | exists []; split; reflexivity].
+  - destruct (u <? deadline).
+    + destruct (stop_before cancel close u) as [[t' o]|] eqn:S; [eapply stop_before_not_got; eauto|].
+      destruct a.
+      * exists [], ds. split; reflexivity.
+      * specialize (IH deadline tau cancel close).
+        destruct (try false deadline tau cancel close ds) as [t|t rest|t o].
+        -- destruct IH as (pre & rest & -> & Hp). exists ((u, false) :: pre), rest. split; [reflexivity|].
+           unfold all_rejected. cbn [forallb snd negb andb]. exact Hp.
+        -- destruct IH as (pre & -> & Hp). exists ((u, false) :: pre). split; [reflexivity|].
+           unfold all_rejected. cbn [forallb snd negb andb]. exact Hp.
+        -- exact IH.
+    + destruct (stop_before cancel close deadline) as [[t' o]|] eqn:S;
+        [eapply stop_before_not_got; eauto | exists []; split; reflexivity].
+Qed.
+
+(** for EVERY delivery stream and every cancel / close instant: a call that returns a response returns
+    an accepted datagram of its stream, and every datagram delivered before it was rejected by the matcher *)
+Theorem got_is_first_acceptable : forall n s tau cancel close ds,
+  result (run_call false n s tau cancel close ds) = Got ->
+  exists pre rest, ds = pre ++ (end_time (run_call false n s tau cancel close ds), true) :: rest /\ all_rejected pre.
+Proof.
+  induction n as [|n IH]; intros s tau cancel close ds; cbn [run_call]; [discriminate|].
+  pose proof (try_consumes ds (s + tau) tau cancel close) as C.
+  destruct (try false (s + tau) tau cancel close ds) as [t|t rest|t o]; cbn [result end_time].
+  - intros _. exact C.
+  - intros H. destruct C as (pre & -> & Hp). destruct (IH _ _ _ _ _ H) as (pre' & rest' & E & Hp').
+    exists (pre ++ pre'), rest'. split; [rewrite E at 1; rewrite app_assoc; reflexivity | apply all_rejected_app; assumption].
+  - intros H. exfalso. exact (C H).
+Qed.
